@@ -2050,9 +2050,9 @@ func TestVerifC19(t *testing.T) {
 	h := &c19H{r: r, workers: ev.Workers(), counts: map[string]int64{}, outcome: map[string]int64{}, info: map[string][]any{}}
 	h.cur = make([]atomic.Pointer[c19Running], h.workers+1)
 	go h.watchdog(10 * time.Minute)
-	// live heap is small and garbage is large (codec writers/readers): collect
-	// rarely so the codecs' sync.Pools are not emptied every few milliseconds.
-	gogc := 400
+	// measured: the default GC pace is the cheapest here (a larger heap costs more
+	// in fresh-page faults than it saves in sync.Pool refills).
+	gogc := 100
 	if g := os.Getenv("VERIF_C19_GOGC"); g != "" { // tuning aid
 		fmt.Sscan(g, &gogc)
 	}
